@@ -528,3 +528,28 @@ def foreach_loop(I, r, body, nx, must, early_exit_ok=False):
         if h == hs[0] and u in blocks and not g.block_dominates(must.block, u):
             return False
     return True
+
+
+def bypass_edges(I, r, events, a, b):
+    """branch events (taken from `events`) whose edge leaves every path to event `a` but can still reach event `b`, judged in
+    the CFG of the frame both events live in (the entry function, or the helper both were extracted into); when they live in
+    different frames the entry function's CFG and its own branch events are used"""
+    if a.fn == b.fn and a.stack == b.stack:
+        fn, blk = a.fn, (lambda e: e.block)
+        cand = [e for e in events if e.kind == 'branch' and e.fn == fn and e.stack == a.stack]
+    else:
+        fn = a.stack[0][0]
+        blk = lambda e: e.top_block()
+        cand = [e for e in events if e.kind == 'branch' and len(e.stack) == 1]
+    body = I.bodies.get(fn)
+    if body is None:
+        return []
+    g = I.cfg(body)
+    out = []
+    for e in cand:
+        tgt = e.extra['target']
+        reach = g.reach([tgt])
+        if blk(a) in reach or blk(b) not in reach or not g.can_reach(blk(e), blk(a)):
+            continue
+        out.append(e)
+    return out
